@@ -486,6 +486,56 @@ func (c *Ctx) c07Mem(sm *storeModel) {
 		}
 	}
 	r.Floor("C07/ID/monotone", "writers of mem.Message.id", len(idStores), 1)
+	// the counter lives in the mbox entry of Store.boxes: an entry must never be removed or
+	// replaced, otherwise the next delivery restarts at id 1
+	if fBoxes := p.Field("pkg/storage/mem", "Store", "boxes"); fBoxes != nil {
+		nIns := 0
+		var bad []string
+		for _, fn := range fns {
+			eng.EachInstr(fn, func(in ssa.Instruction) {
+				switch x := in.(type) {
+				case *ssa.MapUpdate:
+					if eng.SameField(eng.LoadedField(x.Map), fBoxes) {
+						nIns++
+						// insert only on the lookup-miss edge (never overwrites an entry)
+						miss := false
+						for _, b := range fn.Blocks {
+							for k := 0; k < len(b.Succs) && len(b.Succs) == 2; k++ {
+								v, pol, ok := eng.CondTruth(b, k)
+								if !ok || pol || !eng.EdgeDominates(b, k, x.Block()) {
+									continue
+								}
+								if e, ok := v.(*ssa.Extract); ok && e.Index == 1 {
+									if lk, ok := e.Tuple.(*ssa.Lookup); ok && eng.SameField(eng.LoadedField(lk.X), fBoxes) {
+										miss = true
+									}
+								}
+							}
+						}
+						if !miss {
+							bad = append(bad, "mailbox entry overwritten at "+p.InstrPos(in)+" (not on the lookup-miss edge)")
+						}
+					}
+				case *ssa.Call:
+					if eng.CalleeName(x.Common()) == "builtin.delete" && eng.SameField(eng.LoadedField(x.Call.Args[0]), fBoxes) {
+						bad = append(bad, "mailbox entry deleted at "+p.InstrPos(in))
+					}
+				case *ssa.Store:
+					if fa, ok := x.Addr.(*ssa.FieldAddr); ok && eng.SameField(eng.FieldOfAddr(fa), fBoxes) {
+						if _, fresh := fa.X.(*ssa.Alloc); !fresh {
+							bad = append(bad, "Store.boxes replaced at "+p.InstrPos(in))
+						}
+					}
+				}
+			})
+		}
+		if len(bad) > 0 {
+			r.Bad("C07/ID/monotone", "mem.Store.boxes:entries-persist", "", "%s: the per-mailbox id counter is kept in the entry, so after the mailbox is re-created ids start again at 1 and a stale id addresses a different, newer message", strings.Join(bad, "; "))
+		} else {
+			r.Ok("C07/ID/monotone", "mem.Store.boxes:entries-persist", "", "%d insert site(s), only on a lookup miss; entries are never deleted or replaced", nIns)
+		}
+		r.Floor("C07/ID/monotone", "insert sites of Store.boxes", nIns, 1)
+	}
 
 	// D5: deletes reachable from RemoveMessage are keyed by the id parameter
 	rm := p.Method("pkg/storage/mem", "Store", "RemoveMessage")
